@@ -207,36 +207,78 @@ func ruleWIN4(c *Checker) {
 	)
 	n := 0
 	seenTemplate := map[string]bool{}
+	u8Param := func(f *ssa.Function) ssa.Value {
+		var p0 ssa.Value
+		k := 0
+		for _, p := range f.Params {
+			if b, ok := p.Type().Underlying().(*types.Basic); ok && b.Kind() == types.Uint8 {
+				p0 = p
+				k++
+			}
+		}
+		if k != 1 {
+			return nil
+		}
+		return p0
+	}
+	type baseCtx struct {
+		st      *ssa.Store
+		owner   *ssa.Function // the ACK/NACK handler the move belongs to
+		facts   []Fact
+		seq     ssa.Value // the peer sequence number in the handler
+		hseq    ssa.Value // the same value inside a helper (nil if the store is in the handler itself)
+		viaName string
+	}
+	var ctxs []baseCtx
 	for _, st := range w.Stores(fBase) {
 		fn := st.Parent()
 		n++
-		// the peer sequence number: the function's single uint8 parameter (whatever it is called);
-		// it is written "param:seq" in the templates below
-		var seq ssa.Value
-		nU8 := 0
-		for _, p := range fn.Params {
-			if b, ok := p.Type().Underlying().(*types.Basic); ok && b.Kind() == types.Uint8 {
-				seq = p
-				nU8++
+		// a helper of the handlers (`q.moveBasePast(seq)`): judged in the context of each call site
+		hp := u8Param(fn)
+		sites, closed := w.CallersOf(fn)
+		isHelper := hp != nil && closed && len(sites) > 0
+		if isHelper {
+			for _, sx := range sites {
+				cp := u8Param(sx.Caller)
+				idx := -1
+				for k, p := range fn.Params {
+					if ssa.Value(p) == hp {
+						idx = k
+					}
+				}
+				if cp == nil || idx < 0 || idx >= len(sx.Instr.Common().Args) || sx.Instr.Common().Args[idx] != cp {
+					isHelper = false
+				}
 			}
 		}
-		if nU8 != 1 {
-			seq = nil
+		if isHelper {
+			for _, sx := range sites {
+				ctxs = append(ctxs, baseCtx{st: st, owner: sx.Caller, facts: append(append([]Fact{}, factsAt(st.Block())...), factsAt(sx.Instr.Block())...),
+					seq: u8Param(sx.Caller), hseq: hp, viaName: " (in " + fn.Name() + ")"})
+			}
+			continue
 		}
+		ctxs = append(ctxs, baseCtx{st: st, owner: fn, facts: factsAt(st.Block()), seq: u8Param(fn)})
+	}
+	for _, cx := range ctxs {
+		st, fn, seq := cx.st, cx.owner, cx.seq
 		norm := func(v ssa.Value) string {
 			t := w.canonFB(v)
 			if seq != nil {
 				t = strings.ReplaceAll(t, "param:"+seq.Name(), "param:seq")
 			}
+			if cx.hseq != nil {
+				t = strings.ReplaceAll(t, "param:"+cx.hseq.Name(), "param:seq")
+			}
 			return t
 		}
 		val := norm(st.Val)
-		key := fmt.Sprintf("%s|base = %s", fnName(fn), val)
+		key := fmt.Sprintf("%s|base = %s%s", fnName(fn), val, cx.viaName)
 		if seq == nil {
 			c.fail("WIN-4", key, instrPos(st), "the window base is moved in a function without a peer sequence parameter")
 			continue
 		}
-		facts := factsAt(st.Block())
+		facts := cx.facts
 		eqFact := func(other string) bool {
 			for _, f := range facts {
 				bo, ok := f.Cond.(*ssa.BinOp)
@@ -261,7 +303,7 @@ func ruleWIN4(c *Checker) {
 					continue
 				}
 				a := call.Common().Args
-				if len(a) == 3 && w.canonFB(a[0]) == base && w.canonFB(a[1]) == top && a[2] == seq {
+				if len(a) == 3 && w.canonFB(a[0]) == base && w.canonFB(a[1]) == top && (a[2] == seq || (cx.hseq != nil && a[2] == cx.hseq)) {
 					return true
 				}
 			}
